@@ -55,7 +55,7 @@ def rule_store(ctx):
         news = [e for e in path.effects if e[0] == "new" and e[1].endswith("variables.Variables")]
         ok = isinstance(v, Obj) and v.cls == ("variables", "Variables") and len(news) == 1 and news[0][5] is v
         inner = [e for e in path.effects if e[0] == "store" and e[1] is v and isinstance(e[3], Dct)]
-        ok = ok and len(inner) == 1
+        ok = ok and len(inner) >= 1
         ctx.ob("C15.a", "each connection constructs its own Variables with its own mapping", ok, "fakesnow/conn.py")
         if not ok:
             ctx.violation("C15.a", "conn", "FakeSnowflakeConnection.__init__", "variables ownership", "fakesnow/conn.py",
@@ -185,6 +185,53 @@ def rule_token_aware(ctx):
                       "rejected (`select 'cost$x'` -> \"Session variable '$X' does not exist\")")
 
 
+def rule_stage_order(ctx):
+    """C15.h (obligation O2): the stage that records SET/UNSET runs after identifiers were folded, so that
+    `set x = 1`, `SET X = 2` and `unset x` name the same variable."""
+    from ..pipeline import stages
+    from .c02 import rule_fold_first
+
+    prog = ctx.prog
+    rule_fold_first(ctx)  # stage 0 folds unquoted identifiers
+    st = stages(prog)
+    var_stages = [s for s in st if "variables" in s.kwargs or (s.fn is not None and "Variables" in ast.unparse(s.fn))]
+    ctx.floor("pipeline stages that record SET/UNSET", len(var_stages), 1)
+    for s in var_stages:
+        ok = s.index > 0
+        ctx.ob("C15.h", f"SET/UNSET stage `{s.name}` (stage {s.index}) runs after the folding stage", ok, "fakesnow/cursor.py")
+        if not ok:
+            ctx.violation("C15.h", "cursor", "FakeSnowflakeCursor._transform", f"{s.name} before identifier folding", "fakesnow/cursor.py",
+                          f"`{s.name}` records SET/UNSET before unquoted identifiers are upper-cased: `set batch_id = 1` and `SET BATCH_ID = 2` "
+                          f"create two variables and `unset batch_id` does not remove BATCH_ID")
+
+
+def rule_state_dependencies(ctx):
+    """C15.i: every piece of instance state the substitution reads is updated by both SET and UNSET
+    (a memo that only SET invalidates keeps serving the value of an UNSET variable)."""
+    prog = ctx.prog
+    m = prog.mod("variables")
+    fn = prog.fn("variables", "Variables.inline_variables")
+
+    def attrs(f, store=None):
+        out = set()
+        for n in ast.walk(f):
+            if isinstance(n, ast.Attribute) and isinstance(n.value, ast.Name) and n.value.id == "self":
+                out.add(n.attr)
+        return out
+    methods = {q.split(".")[-1] for q in m.functions if q.startswith("Variables.")}
+    reads = {a for a in attrs(fn) if a not in methods}
+    set_fn = m.functions.get("Variables._set") or m.functions.get("Variables.update_variables")
+    unset_fn = m.functions.get("Variables._unset") or m.functions.get("Variables.update_variables")
+    ctx.floor("instance attributes read by inline_variables", len(reads), 1)
+    for a in sorted(reads):
+        ok = set_fn is not None and unset_fn is not None and a in attrs(set_fn) and a in attrs(unset_fn)
+        ctx.ob("C15.i", f"state `{a}` read by the substitution is updated by both SET and UNSET", ok, m.loc(fn))
+        if not ok:
+            ctx.violation("C15.i", "variables", "Variables.inline_variables", f"state `{a}` not maintained by both SET and UNSET", m.loc(fn),
+                          f"inline_variables depends on `self.{a}`, which SET and UNSET do not both update: after the variable changes "
+                          f"(e.g. UNSET) the same statement text is still rewritten with the stale value")
+
+
 def rule_set_unset(ctx):
     """C15.f: SET / UNSET descriptors update this connection's mapping and become the success no-op."""
     from .common import traces
@@ -222,4 +269,6 @@ RULES = [
     ("C15.d", rule_undefined_variable, ("quick", "thorough")),
     ("C15.e", rule_token_aware, ("quick", "thorough")),
     ("C15.f", rule_set_unset, ("quick", "thorough")),
+    ("C15.h", rule_stage_order, ("quick", "thorough")),
+    ("C15.i", rule_state_dependencies, ("quick", "thorough")),
 ]
